@@ -52,7 +52,20 @@ def gen_scenario(seed, i, store):
             ops.append(["rm_msg", rng.below(30)])
         else:
             ops.append(["act", "next", "p1", {"term": rng.below(3)}, {}])
-    cfg = {"keep": True, "max_retry": max_retry, "tick_secs": tick_secs, "store": store, "rows_each": ["messages"]}
+    keep = True
+    if i % 4 == 1:
+        # the messages outlive their processes: everything is answered to the end under the default retention (the processes are removed, no
+        # process is live any more), and the ticks go on
+        keep = False
+        for _ in range(6):
+            for pid in ("p1", "p2"):
+                ops.append(["act", "next", pid, {"open": 0}, {}])
+                ops.append(["runall"])
+        for _ in range(rng.range(3, 6)):
+            ops.append(["tick", rng.pick([interval + 1, interval, 2 * interval + 5])])
+            if rng.chance(1, 4):
+                ops.append(["ack", rng.below(40)])
+    cfg = {"keep": keep, "max_retry": max_retry, "tick_secs": tick_secs, "store": store, "rows_each": ["messages"]}
     return {"id": f"c09-{seed}-{i}-{store}", "config": cfg, "models": [WF], "ops": ops}, {"max": max_retry, "interval": interval, "limit": 300}
 
 
